@@ -294,6 +294,8 @@ NUMERIC_STR_FIELDS = {"value_raw", "v", "key_raw", "physical_default_value",
                       "physical_default_value_raw", "physical_constant_value_raw",
                       "expected_value", "termination_value_raw"}
 
+PRESENCE_FLAGS = {("EnvironmentData", "all_value")}
+
 _HINTS: Dict[type, Dict[str, Any]] = {}
 
 
@@ -384,6 +386,9 @@ def candidates(cls_name: str, fname: str, kind: str, cur: Any,
                etype: Optional[type]) -> List[Tuple[str, Any]]:
     """Ordered (label, value) candidates; later ones are fall-backs if an earlier one makes the
     database invalid.  For free text the list is [plain, metacharacters] and BOTH are judged."""
+    if (cls_name, fname) in PRESENCE_FLAGS:
+        # the parser only ever produces None (element absent) or True (element present)
+        return [("presence", None if cur else True)]
     if kind == "bool":
         if cur is None:
             return [("explicit-false", False), ("true", True)]
@@ -449,24 +454,24 @@ def norm(x: Any, depth: int = 0) -> Any:
     return f"<{type(x).__name__}>"
 
 
-def _simple_value(dop: Any, depth: int = 0) -> Any:
+def _simple_value(dop: Any, depth: int = 0, variant: int = 0) -> Any:
     """A simple valid physical value for a DOP-like object (best effort)."""
     from odxtools.odxtypes import DataType
     tn = type(dop).__name__
     if depth > 4 or dop is None:
         return 1
     if tn in ("Structure", "BasicStructure", "EnvironmentData"):
-        return {p.short_name: _param_value(p, depth + 1) for p in dop.parameters
+        return {p.short_name: _param_value(p, depth + 1, variant) for p in dop.parameters
                 if getattr(p, "is_required", False)}
     if tn in ("StaticField",):
-        return [_simple_value(dop.structure, depth + 1) for _ in range(dop.fixed_number_of_items)]
+        return [_simple_value(dop.structure, depth + 1, variant) for _ in range(dop.fixed_number_of_items)]
     if tn in ("DynamicLengthField", "EndOfPduField", "DynamicEndmarkerField"):
         n = max(1, getattr(dop, "min_number_of_items", None) or 1)
-        return [_simple_value(dop.structure, depth + 1) for _ in range(n)]
+        return [_simple_value(dop.structure, depth + 1, variant) for _ in range(n)]
     if tn == "Multiplexer":
         for c in dop.cases:
             if getattr(c, "structure", None) is not None:
-                return (c.short_name, _simple_value(c.structure, depth + 1))
+                return (c.short_name, _simple_value(c.structure, depth + 1, variant))
         return 1
     if tn == "DtcDop":
         return dop.dtcs[0].trouble_code if dop.dtcs else 1
@@ -490,11 +495,16 @@ def _simple_value(dop: Any, depth: int = 0) -> Any:
         bl = getattr(getattr(dop, "diag_coded_type", None), "bit_length", None)
         return bytes([0x12] * ((bl // 8) if isinstance(bl, int) and bl >= 8 else 2))
     if pt in (DataType.A_FLOAT32, DataType.A_FLOAT64):
-        return 4.0
+        return 4.0 if variant == 0 else -2.5
+    if variant:
+        bl = getattr(getattr(dop, "diag_coded_type", None), "bit_length", None)
+        if isinstance(bl, int) and bl > 3 and type(cm).__name__ == "IdenticalCompuMethod":
+            return 0x12345678 & ((1 << min(bl, 31)) - 1)  # a bit pattern (masks, byte order)
+        return 3
     return 4
 
 
-def _param_value(p: Any, depth: int = 0) -> Any:
+def _param_value(p: Any, depth: int = 0, variant: int = 0) -> Any:
     tn = type(p).__name__
     if tn == "TableKeyParameter":
         t = getattr(p, "table", None)
@@ -507,19 +517,19 @@ def _param_value(p: Any, depth: int = 0) -> Any:
         if t is not None and len(t.table_rows):
             r = t.table_rows[0]
             if getattr(r, "structure", None) is not None:
-                return (r.short_name, _simple_value(r.structure, depth + 1))
+                return (r.short_name, _simple_value(r.structure, depth + 1, variant))
             if getattr(r, "dop", None) is not None:
-                return (r.short_name, _simple_value(r.dop, depth + 1))
+                return (r.short_name, _simple_value(r.dop, depth + 1, variant))
         return 1
-    return _simple_value(getattr(p, "dop", None), depth)
+    return _simple_value(getattr(p, "dop", None), depth, variant)
 
 
-def _kwargs_for(codec: Any) -> Dict[str, Any]:
-    kw = {p.short_name: _param_value(p) for p in codec.required_parameters}
+def _kwargs_for(codec: Any, variant: int = 0) -> Dict[str, Any]:
+    kw = {p.short_name: _param_value(p, 0, variant) for p in codec.required_parameters}
     for p in codec.parameters:
         # SYSTEM parameters default to the wall clock: pin them, the corpus must be deterministic
         if type(p).__name__ == "SystemParameter":
-            kw[p.short_name] = _param_value(p)
+            kw[p.short_name] = _param_value(p, 0, variant)
     return kw
 
 
@@ -545,13 +555,13 @@ def corpus(db: Any) -> Dict[str, Any]:
         except Exception as e:
             res[f"{ln}/<services>"] = ["raises", type(e).__name__, str(e)[:300]]
             continue
-        for svc in services:
-            key = f"{ln}/{svc.short_name}"
+        for svc, variant in [(x, v) for x in services for v in (0, 1)]:
+            key = f"{ln}/{svc.short_name}" + ("/alt" if variant else "")
             req = getattr(svc, "request", None)
             if req is None:
                 continue
             try:
-                kwargs = _kwargs_for(req)
+                kwargs = _kwargs_for(req, variant)
             except Exception as e:
                 res[key + "/values"] = ["raises", type(e).__name__, str(e)[:300]]
                 kwargs = {}
@@ -564,7 +574,7 @@ def corpus(db: Any) -> Dict[str, Any]:
                     lambda: sorted(repr(norm(m.param_dict)) for m in layer.decode(pdu)))
             for n, resp in enumerate(list(svc.positive_responses)[:1]):
                 try:
-                    rk = _kwargs_for(resp)
+                    rk = _kwargs_for(resp, variant)
                 except Exception:
                     rk = {}
                 rpdu = attempt(f"{key}/encode_pos{n}",
